@@ -133,6 +133,8 @@ def judge_bs(x_train, grid, cfg, tol=1e-10):
         out.append(("C12.bs.knot-vector", "explicit-knots-not-recorded", f"recorded {knots}, given {cfg['knots']}"))
         valid = False
 
+    out_notes = set()
+
     def judge_rows(x, res, phase):
         keys, M = _rows_of(res)
         exp_keys = list(range(0 if icpt else 1, nb))
@@ -164,6 +166,12 @@ def judge_bs(x_train, grid, cfg, tol=1e-10):
                         out.append((*c, f"x={v!r}: row sums to {float(row.sum())!r}"))
             if not valid:
                 continue
+            if mode == "extend" and not inside and valid and (
+                    (v > ub and knots.count(float(ub)) > degree + 1) or (v < lb and knots.count(float(lb)) > degree + 1)):
+                # an interior knot is tied to the bound that is crossed: the polynomial pieces "of the last interval"
+                # live on a zero-width interval, so which polynomials are to be continued is not defined; not judged
+                out_notes.add("extend-beyond-a-bound-with-a-tied-interior-knot")
+                continue
             kind, exp = _spline_expected_row("bs", knots, degree, icpt, lb, ub, mode, v)
             where = "inside" if inside else (mode + (":below" if v < lb else ":above"))
             if v in (lb, ub):
@@ -184,6 +192,18 @@ def judge_bs(x_train, grid, cfg, tol=1e-10):
                 # formed by cancellation: allow a relative 1e-8 of the largest entry there
                 t = tol * scale if inside or mode == "clip" else 1e-8 * scale
                 ok = row.shape == e.shape and bool((np.abs(row - e) <= t).all())
+                v_eff = min(max(v, lb), ub) if mode == "clip" else v
+                m_hi = knots.count(float(ub))
+                if not ok and v_eff == ub and ub > lb and m_hi > degree + 1:
+                    # interior knot(s) coincide with the upper bound: the value AT the bound is a matter of convention
+                    # (left limit as in the oracle; all mass on the last basis function as R / scipy do; ...): accept
+                    # the unit vector on any of the basis functions whose knots end in the tied block
+                    for j in range(nb - (m_hi - degree), nb):
+                        u = np.zeros(nb)
+                        u[j] = 1.0
+                        u = u if icpt else u[1:]
+                        if row.shape == u.shape and bool((np.abs(row - u) <= t).all()):
+                            ok = True
                 detail = f"x={v!r} ({where}): row {row.tolist()} expected {exp}"
             if not ok:
                 clause = "C12.bs.values" if inside else "C12.bs.extrapolation"
@@ -218,6 +238,8 @@ def judge_bs(x_train, grid, cfg, tol=1e-10):
         out.append(("C12.bs.values", "replay-raises-" + type(e).__name__, f"{type(e).__name__}: {e}"))
     if repr(st) != snapshot:
         out.append(("C12.bs.knot-vector", "state-changed-on-replay", f"{snapshot} -> {st!r}"))
+    for n in sorted(out_notes):
+        out.append(("note:C12.bs.extrapolation", n, "not judged"))
     return out
 
 
